@@ -88,7 +88,10 @@ def _seeded(seed, n, undeploy_prob):
 
 
 def _quiet():
+    # imported here, once, BEFORE worker processes are forked (the import dominates a schedule's cost)
     import streamflow.log_handler  # noqa: F401  (configures the logger at import)
+    import streamflow.deployment.connector.local  # noqa: F401
+    import streamflow.deployment.connector.queue_manager  # noqa: F401
     logging.getLogger("streamflow").setLevel(logging.CRITICAL)
 
 
@@ -199,7 +202,7 @@ def _hits(s):
 def _report(ctx, s, sig, detail, what):
     d = {"schedule": {"n": s["n"], "p": s["p"], "applied": s["applied"], "fast": s["job"].get("fast", True)},
          "finding": detail, "results": s["results"], "undeploy": s.get("undeploy"), "log": s["log"][-80:]}
-    ctx.violation(sig, d, what)
+    return ctx.violation(sig, d, what)
 
 
 def _evaluate(ctx, summaries, label):
@@ -214,32 +217,38 @@ def _evaluate(ctx, summaries, label):
         key = json.dumps([s["n"], s["p"], s["applied"]])
         ctx.case((label, key), nontrivial=len(s["applied"]) > 4)
         _classes(ctx, s)
+        s["unlisted_direct"] = False
         for sig, detail, what in s["verdicts"]:
-            _report(ctx, s, sig, detail, what)
+            if _report(ctx, s, sig, detail, what):
+                s["unlisted_direct"] = True
         groups.setdefault(s["p"], []).append(s)
     from vh import trace as vtrace
     for p, ss in sorted(groups.items()):
         n = max(s["n"] for s in ss)          # one TLC run per polling interval: calls that do not exist stay idle
         traces = [_trace_for_tlc(s, n) for s in ss]
-        verdicts = vtrace.validate(ctx, "QueueManager", "Trace_QueueManager", "Trace.cfg", traces,
-                                   files={"Trace.cfg": _cfg(n, p, trace=True)}, timeout=1200)
+        files = {"Trace.cfg": _cfg(n, p, trace=True)}
+        verdicts = vtrace.validate(ctx, "QueueManager", "Trace_QueueManager", "Trace.cfg", traces, files=files,
+                                   timeout=1200, diagnose=False)
+        bad = [i for i, v in enumerate(verdicts) if not v["ok"]]
+        # diagnosis (longest explained prefix) costs one TLC run per trace: only for a few
+        for i in [i for i in bad if verdicts[i]["reason"] == "rejected" and not ss[i]["unlisted_direct"]][:3]:
+            ctx.impl_traces -= 1
+            verdicts[i] = vtrace.validate(ctx, "QueueManager", "Trace_QueueManager", "Trace.cfg", [traces[i]], files=files,
+                                          timeout=600, diagnose=True)[0]
         for s, tr, v in zip(ss, traces, verdicts):
             if v["ok"]:
                 ctx.count("traces_accepted")
                 continue
+            ctx.count("traces_not_accepted")
+            if s["unlisted_direct"]:
+                # the execution already produced a direct finding; its trace cannot be a behaviour of the model
+                ctx.count("traces_rejected_with_direct_finding")
+                continue
             ev = v.get("event")
-            kind = ev.get("e") if isinstance(ev, dict) else "end"
-            if v["reason"].startswith("invariant:"):
-                sig = "trace:%s" % v["reason"]
-            else:
-                sig = "trace:rejected:%s" % kind
-            # a trace that only repeats a finding already reported directly for this execution adds nothing
-            direct = {x[0] for x in s["verdicts"]}
+            kind = ev.get("e") if isinstance(ev, dict) else ("undiagnosed" if v.get("prefix") is None else "end")
+            sig = "trace:%s" % v["reason"] if v["reason"].startswith("invariant:") else "trace:rejected:%s" % kind
             what = "the recorded execution is not a behaviour of QueueManager: %s at event %s (%s)" % (
                 v["reason"], v.get("prefix"), json.dumps(ev)[:300])
-            if direct:
-                ctx.count("traces_rejected_with_direct_finding")
-                sig = sig + ":with:" + "+".join(sorted(direct))
             _report(ctx, s, sig, {"trace_verdict": {k: v.get(k) for k in ("reason", "prefix", "event")}, "trace": tr}, what)
 
 
@@ -281,6 +290,7 @@ def _probe_tools(ctx):
              "squeue -h -j  -t PENDING,RUNNING -O JOBID",
              "scontrol show -o job 4001 | sed -n 's/^.*ExitCode=\\([0-9]\\+\\):.*/\\1/p'",
              "scontrol show -o job 4444 | sed -n 's/^.*ExitCode=\\([0-9]\\+\\):.*/\\1/p'",
+             "cat <S>/job.4001.out", "cat <S>/job.4002.out",
              "scancel 4001 4002", "squeue -h -j 4002 -t PENDING,RUNNING -O JOBID",
              "scontrol show -o job 4002 | sed -n 's/^.*ExitCode=\\([0-9]\\+\\):.*/\\1/p'"]
     env = dict(os.environ, PATH=a.bin + os.pathsep + os.environ.get("PATH", ""))
@@ -290,9 +300,10 @@ def _probe_tools(ctx):
             for c in (a, b):
                 getattr(c, op)(jid, 7)
             continue
-        pr = subprocess.run(["sh", "-c", st], env=env, capture_output=True, text=True, timeout=60)
+        merged = " 2>&1"      # what create_command appends for the default streams
+        pr = subprocess.run(["sh", "-c", st.replace("<S>", a.state) + merged], env=env, capture_output=True, text=True, timeout=60)
         ra = (pr.stdout.strip().replace(a.state, "<S>"), pr.returncode)
-        rb = b.exec_fast(st)
+        rb = b.exec_fast(st.replace("<S>", b.state))
         ctx.require(rb is not None, "tool probe: the fast path does not understand %r" % st)
         rb = (rb[0].replace(b.state, "<S>"), rb[1])
         ctx.require(ra == rb, "tool probe: dash tools and in-process tools disagree on %r: %r vs %r" % (st, ra, rb))
@@ -304,6 +315,9 @@ def _probe_tools(ctx):
 
 
 def run(ctx):
+    import time
+    t0 = time.time()
+    phase = ctx.extra.setdefault("phase_wall_s", {})
     _quiet()
     ctx.rule = ("TLC explores all interleavings of QueueManager.tla; executions of the real SlurmConnector are driven by "
                 "environment-event orders taken from TLC behaviours and from seeded choice, judged from the fake tools' "
@@ -312,7 +326,7 @@ def run(ctx):
     # ---- 1. the model -------------------------------------------------------------------------
     mcs = ctx.pick(
         [(2, 1, True, True, True), (3, 2, True, False, False)],
-        [(2, 1, True, True, True), (2, 2, True, True, True), (3, 1, True, True, True), (3, 2, True, True, True)])
+        [(2, 1, True, True, True), (2, 2, True, True, True), (3, 1, True, True, True), (3, 2, True, False, True)])
     for n, p, loose, running, undeploy in mcs:
         r = ctx.tlc("QueueManager", "MC_QueueManager", "MC.cfg", files={"MC.cfg": _cfg(n, p, loose, running, undeploy)},
                     coverage=True, timeout=3000)
@@ -321,18 +335,21 @@ def run(ctx):
         ctx.require_coverage(r, ACTIONS + (["UndeployStart", "ScancelExec", "ScancelDone"] if undeploy else [])
                              + (["JobRuns"] if running else []))
     ctx.exhaustive = True
+    phase["model_checking"] = round(time.time() - t0, 1); t0 = time.time()
     _probe_tools(ctx)
+    phase["tool_probe"] = round(time.time() - t0, 1); t0 = time.time()
     # ---- 2. schedules -------------------------------------------------------------------------
     root = ctx.scratch("runs")
     workers = max(1, min(8, os.cpu_count() or 2))
     jobs = []
-    n_guided, n_seeded, n_real = ctx.pick((20, 30, 3), (500, 1000, 40))
+    n_guided, n_seeded, n_real = ctx.pick((20, 30, 3), (200, 400, 12))
     plans = _tlc_plans(ctx, 3, 1, n_guided, ctx.pick(45, 60))
     for i, plan in enumerate(plans[:n_guided]):
         n, p = ((3, 1), (3, 2), (3, 1), (2, 1), (3, 2))[i % 5]
         plan = [a for a in plan if len(a) < 2 or a[1] <= n]     # the same order of events for fewer jobs / another interval
         jobs.append({"kind": "guided", "n": n, "p": p, "plan": [list(a) for a in plan], "fast": True})
     ctx.count("schedules_from_tlc_behaviours", len(jobs))
+    phase["tlc_behaviours"] = round(time.time() - t0, 1); t0 = time.time()
     rng = ctx.rng("seeded")
     sizes = ctx.pick([2, 3, 3, 3, 4], [1, 2, 3, 3, 3, 4, 5, 6])
     for i in range(n_seeded):
@@ -345,8 +362,11 @@ def run(ctx):
         j["idx"], j["root"] = i, root
     summaries = _pool_map(run_one, jobs, workers)
     ctx.count("schedules", len(summaries))
+    phase["schedules_on_real_connector"] = round(time.time() - t0, 1); t0 = time.time()
+    phase["sum_of_schedule_walls"] = round(sum(x["wall"] for x in summaries), 1)
     ctx.count("schedules_real_subprocess_tools", n_real)
     _evaluate(ctx, summaries, "sched")
+    phase["verdicts_and_trace_validation"] = round(time.time() - t0, 1)
     for s in summaries[:1] + [x for x in summaries if x.get("undeploy")][:1]:
         ctx.sample({"schedule": s["applied"][:40], "results": s["results"], "undeploy": s.get("undeploy"), "log": s["log"][:25]})
     for cls in ("class:lock-contention", "class:two-or-more-polling", "class:squeue-for-several-jobs", "class:undeploy",
